@@ -438,6 +438,25 @@ func init() {
 		in.drain() // let every other goroutine run until it blocks or finishes
 		return nil
 	})
+	reg(ndPkg+".MutexState", func(in *Interp, fr *frame, a []Value) Value {
+		// 0 unlocked, 1 read-locked, 2 write-locked (the pointer may address a Mutex or RWMutex)
+		p, ok := a[0].(Iface).v.(*Value)
+		if !ok {
+			return in.ts.Const(64, ^uint64(0))
+		}
+		m := in.mutexes[p]
+		// sync.RWMutex embeds state in fields; Lock/RLock intrinsics key on the pointer passed to them
+		if m == nil {
+			return in.ts.Const(64, 0)
+		}
+		if m.writer {
+			return in.ts.Const(64, 2)
+		}
+		if m.readers > 0 {
+			return in.ts.Const(64, 1)
+		}
+		return in.ts.Const(64, 0)
+	})
 	reg(ndPkg+".RegisterReset", func(in *Interp, fr *frame, a []Value) Value { return nil })
 	reg(ndPkg+".AllowLeak", func(in *Interp, fr *frame, a []Value) Value { in.extra["allowLeak"] = true; return nil })
 }
